@@ -38,6 +38,22 @@ fn replay_open_exclusive() {
     drop(clone);
     let again: Cas<String> = Cas::open(dir.path(), cfg(2, false)).expect("open after the owner is gone");
     drop(again);
+    // a FRESH directory whose owner is still inside its own open: it has created the directories and taken LOCK but has
+    // not yet saved its settings.  A second open must lose without creating or touching anything (for every config).
+    for (n, pre) in [(2u64, false), (7, false)] {
+        let dir = tempfile::tempdir().unwrap();
+        std::fs::create_dir_all(dir.path().join("staging")).unwrap();
+        std::fs::create_dir_all(dir.path().join("cas")).unwrap();
+        let lock = std::fs::OpenOptions::new().create(true).truncate(true).write(true).open(dir.path().join("LOCK")).unwrap();
+        lock.try_lock().expect("the test itself could not lock a fresh LOCK file");
+        let before = snapshot(dir.path());
+        let r: Result<Cas<String>, _> = Cas::open(dir.path(), cfg(n, pre));
+        assert!(r.is_err(), "open of a directory whose LOCK is held by a starting owner succeeded");
+        drop(r);
+        assert_eq!(snapshot(dir.path()), before, "a losing open of a fresh directory created or modified database files (config N={n})");
+        assert!(std::fs::read_dir(dir.path().join("cas")).unwrap().next().is_none(), "a losing open of a fresh directory pre-created blob directories");
+        drop(lock);
+    }
 }
 
 #[cfg(test)]
@@ -56,6 +72,27 @@ fn replay_settings_gate() {
     assert!(r.is_err(), "open with a different num_ops_per_wal must be rejected");
     assert_eq!(snapshot(dir.path()).iter().filter(|x| x.0 != "LOCK").collect::<Vec<_>>(),
         before.iter().filter(|x| x.0 != "LOCK").collect::<Vec<_>>(), "a rejected open modified database files");
+    // ... for every combination of the stored and the requested pre-creation choice (the stored flag is edited in
+    // the settings file; the gate must not depend on either)
+    {
+        let sp = dir.path().join("db_settings.json");
+        let txt = std::fs::read_to_string(&sp).unwrap();
+        for stored_pre in [false, true] {
+            let edited = txt.replace("\"dir_tree_is_pre_created\":false", &format!("\"dir_tree_is_pre_created\":{stored_pre}"));
+            std::fs::write(&sp, &edited).unwrap();
+            for req_pre in [false, true] {
+                for n in [1u64, 3, 4] {
+                    let before = snapshot(dir.path());
+                    let r: Result<Cas<String>, _> = Cas::open(dir.path(), cfg(n, req_pre));
+                    assert!(r.is_err(), "open with num_ops_per_wal={n} (stored 2; stored pre-create flag {stored_pre}, requested {req_pre}) must be rejected");
+                    drop(r);
+                    assert_eq!(snapshot(dir.path()).iter().filter(|x| x.0 != "LOCK").collect::<Vec<_>>(),
+                        before.iter().filter(|x| x.0 != "LOCK").collect::<Vec<_>>(), "a rejected open modified database files");
+                }
+            }
+        }
+        std::fs::write(&sp, &txt).unwrap();
+    }
     // the creation-time pre-creation choice is remembered: reopen with the other choice and write new content
     {
         let cas: Cas<String> = Cas::open(dir.path(), cfg(2, true)).unwrap();
